@@ -990,12 +990,13 @@ def hist_run(c, NP, MAXR, NSTEPS, FIRST, CRASH, extra_hooks=(), shrink=False):
     for S_ in ctl.MS:
         S_.levels[0].__dict__['_probe_step'] = S_
     P = ctl.MS[0].levels[0].prob
-    u0 = P.u_exact(0)
+    T0 = float(shrink_opts.get('t0', 0.0)) if isinstance(shrink_opts, dict) else 0.0  # (option 't0': the run starts there; dyadic values keep the times exact)
+    u0 = P.u_exact(T0)
     try:
-        u, stats = ctl.run(u0, 0.0, DT * NSTEPS)
+        u, stats = ctl.run(u0, T0, T0 + DT * NSTEPS)
     except ConvergenceError:
         return dict(status='crash', log=list(H['log']))
-    return dict(status='ok', log=list(H['log']), u=complex(u[0]), stats=stats, u0=complex(u0[0]))
+    return dict(status='ok', log=list(H['log']), u=complex(u[0]), stats=stats, u0=complex(u0[0]), t0=T0)
 
 
 def hist_judge(r, NP, MAXR, NSTEPS, FIRST, CRASH, shrink=False):
@@ -1020,7 +1021,7 @@ def hist_judge(r, NP, MAXR, NSTEPS, FIRST, CRASH, shrink=False):
             bad.append(('unexpected-error', 'ConvergenceError although crash_after_max_restarts is off'))
         return bad
     acc = [l for l in log if not l[5]]
-    tcur, ucur = 0.0, r['u0']
+    tcur, ucur = r.get('t0', 0.0), r['u0']
     for (slot, tm, dt, u0, ue, rs, nr) in acc:
         if (tm != tcur) if not shrink else (abs(tm - tcur) > 1e-12):
             bad.append(('tiling', {'start': tm, 'expected': tcur}))
